@@ -451,8 +451,47 @@ func evaluate(k Case) (out []finding) {
 	} else {
 		ga := strings.ReplaceAll(ra, k.Letters[:1], "")
 		gb := strings.ReplaceAll(rb, k.Letters[:1], "")
-		if ga != k.R[a0:a1] || gb != k.Q[b0:b1] {
+		if ga != strings.ReplaceAll(k.R[a0:a1], k.Letters[:1], "") || gb != strings.ReplaceAll(k.Q[b0:b1], k.Letters[:1], "") {
 			add("C09", "format-content", "Format rows %q/%q reduce to %q/%q, aligned sub-sequences are %q/%q", ra, rb, ga, gb, k.R[a0:a1], k.Q[b0:b1])
+		}
+	}
+	// the description turned round with Invert (after it has been looked at): the same path with the
+	// two sides exchanged, for Features and for Format alike; turned round again it is what it was
+	invert := func() bool {
+		for _, p := range ps {
+			iv, ok := p.(interface{ Invert() })
+			if !ok {
+				return false
+			}
+			iv.Invert()
+		}
+		return true
+	}
+	if invert() {
+		swapped := make([]seg, len(segs))
+		for i, x := range segs {
+			swapped[i] = seg{x.b0, x.b1, x.a0, x.a1, x.score}
+		}
+		if got := segments(ps); fmt.Sprint(got) != fmt.Sprint(swapped) {
+			add("C09", "inverted-pairs", "after Invert the pairs read %v, before it %v", got, segs)
+		} else {
+			var ia, ib string
+			func() {
+				defer func() {
+					if r := recover(); r != nil {
+						add("C09", "inverted-format-panic", "Format(query, reference, inverted pairs) panicked: %v", r)
+					}
+				}()
+				irows := align.Format(seqOf(k.Letters, k.Q, false).(*linear.Seq), seqOf(k.Letters, k.R, false).(*linear.Seq), ps, alphabet.Letter(k.Letters[0]))
+				ia, ib = fmt.Sprint(irows[0]), fmt.Sprint(irows[1])
+				if ia != rb || ib != ra {
+					add("C09", "inverted-format", "Format(query, reference, inverted pairs) gives %q/%q, Format(reference, query, pairs) gave %q/%q", ia, ib, ra, rb)
+				}
+			}()
+		}
+		invert()
+		if got := segments(ps); fmt.Sprint(got) != fmt.Sprint(segs) {
+			add("C09", "inverted-twice", "after two Inverts the pairs read %v, before them %v", got, segs)
 		}
 	}
 	return
@@ -555,11 +594,11 @@ func Main(prop string) {
 
 func run(c *enum.Ctx, prop string) {
 	if prop == "C08" {
-		c.Rule("alphabet '-ac' (gap first): every ordered pair of non-empty sequences of length <=3 over {a,c}; every 3x3 matrix with substitution entries in {-1,0,1} and the four gap entries in {0,-1}; gap-open in {0,-1,-2}; the six aligners; a third of the matrices reach the aligner in a matrix value that earlier alignments used with other contents (rewritten in place), a fifth embedded in a matrix two rows/columns larger than the alphabet (extra cells 55), a fifth as a copy-on-write edit of a block-allocated matrix (outer rows views of one block, inner rows replaced), and one goroutine sweeps every 7th matrix through a single matrix value, all aligners applied again after each rewrite (thorough: lengths <=4, substitution entries in {-2..2} on a sliced sub-grid, gap entries {0,-1,-2}, and the alphabet '-acg' with lengths <=2; lengths 5 on every 40th matrix of the small grid); alphabets '-acgtn' (thorough also gap + 20 letters) with two asymmetric all-different matrices and every pair of sequences of length <=2; a fixed word of 260 / 520 letters over '-acgt' against itself with one letter inserted or deleted at every position around 256 / 512 and with blocks of 63..129 letters missing from either side, all aligners, on one goroutine; every word pair on a few matrices directly after a REJECTED call (illegal letter at each position of either sequence, ragged matrix sharing the rows of the good one, mixed sequence types, distinct alphabet objects) on the same goroutine; oracle: the score of the RETURNED PATH recomputed from the letters equals the optimum of an independent reference DP (global / local / whole-query-ending-at-the-same-reference-position; affine: three-state with and without gap-to-gap transitions so that the two defect classes are told apart); non-trivial = cases whose optimal alignment contains at least one gap or mismatch")
+		c.Rule("alphabet '-ac' (gap first): every ordered pair of non-empty sequences of length <=3 over {a,c}; every 3x3 matrix with substitution entries in {-1,0,1} and the four gap entries in {0,-1}; gap-open in {0,-1,-2}; the six aligners; a third of the matrices reach the aligner in a matrix value that earlier alignments used with other contents (rewritten in place), a fifth embedded in a matrix two rows/columns larger than the alphabet (extra cells 55), a fifth as a copy-on-write edit of a block-allocated matrix (outer rows views of one block, inner rows replaced), and one goroutine sweeps every 7th matrix through a single matrix value, all aligners applied again after each rewrite (thorough: lengths <=4, substitution entries in {-2..2} on a sliced sub-grid, gap entries {0,-1,-2}, and the alphabet '-acg' with lengths <=2; lengths 5 on every 40th matrix of the small grid); alphabets '-acgtn' (thorough also gap + 20 letters) with two asymmetric all-different matrices and every pair of sequences of length <=2; a fixed word of 260 / 520 letters over '-acgt' against itself with one letter inserted or deleted at every position around 256 / 512 and with blocks of 63..129 letters missing from either side, all aligners, on one goroutine; every pair of words of length <=3 over '-ac' that holds the gap letter itself, on a slice of the matrices with the gap/gap cell 0 and -1; every word pair on a few matrices directly after a REJECTED call (illegal letter at each position of either sequence, ragged matrix sharing the rows of the good one, mixed sequence types, distinct alphabet objects) on the same goroutine; oracle: the score of the RETURNED PATH recomputed from the letters equals the optimum of an independent reference DP (global / local / whole-query-ending-at-the-same-reference-position; affine: three-state with and without gap-to-gap transitions so that the two defect classes are told apart); non-trivial = cases whose optimal alignment contains at least one gap or mismatch")
 	} else {
-		c.Rule("every alignment produced in C08's space: monotone abutting path of equal-length blocks, one-sided gaps and empty zero-score pairs; global spans both sequences, local/fitted within bounds; per maximal run the reported scores equal the score recomputed from letters, matrix and gap parameters (gap-open once per run); plain and quality letters give identical pairs; align.Format gives two equal-length rows that reduce to the aligned sub-sequences; plus ill-typed calls (an illegal letter at every position of either sequence, distinct alphabet objects, mixed Letters/QLetters, nil alphabet, alphabet without leading gap, ragged / non-square / undersized / empty matrices) which must return an error and never panic; non-trivial = all")
+		c.Rule("every alignment produced in C08's space: monotone abutting path of equal-length blocks, one-sided gaps and empty zero-score pairs; global spans both sequences, local/fitted within bounds; per maximal run the reported scores equal the score recomputed from letters, matrix and gap parameters (gap-open once per run); plain and quality letters give identical pairs; align.Format gives two equal-length rows that reduce to the aligned sub-sequences; the pairs turned round with Invert after they have been read describe the same path with the sides exchanged (Features and Format), and turned round twice are what they were; plus ill-typed calls (an illegal letter at every position of either sequence, distinct alphabet objects, mixed Letters/QLetters, nil alphabet, alphabet without leading gap, ragged / non-square / undersized / empty matrices, among them every shape of 1..5 rows with each row as long as the row count or one off it) which must return an error and never panic; non-trivial = all")
 	}
-	c.Assume("sequences are over the non-gap letters of the alphabet; gap scores and gap-open are non-positive")
+	c.Assume("gap scores and gap-open are non-positive; sequences that hold the gap letter itself only in the family made for them (lengths <=3 over '-ac')")
 	maxLen, sub, gp := 3, []int{-1, 0, 1}, []int{0, -1}
 	if !c.Quick {
 		maxLen, sub, gp = 4, []int{-2, -1, 0, 1, 2}, []int{0, -1, -2}
@@ -714,6 +753,47 @@ func run(c *enum.Ctx, prop string) {
 			}
 		}
 		c.Set("calls_after_a_rejected_call", n)
+	}
+	// sequences that hold the gap letter itself (a legal letter of a gapped alphabet: row/column 0 of the
+	// matrix is then a substitution row as well as the gap penalties), every pair with at least one gap
+	// letter, on a slice of the matrices with the gap/gap cell 0 and -1
+	{
+		var gwords []string
+		enum.Strings(def, 1, 3, func(s []byte) { gwords = append(gwords, string(s)) })
+		var gm [][][]int
+		step := len(mats)/40 + 1
+		if !c.Quick {
+			step = len(mats)/400 + 1
+		}
+		for i := 0; i < len(mats); i += step {
+			for _, gg := range []int{0, -1} {
+				M := [][]int{append([]int{}, mats[i][0]...), mats[i][1], mats[i][2]}
+				M[0][0] = gg
+				gm = append(gm, M)
+			}
+		}
+		var n atomic.Int64
+		enum.Parallel(len(gm), func(mi int) {
+			for _, al := range aligners {
+				op := -(mi % 3)
+				if !affineOf(al) {
+					op = 0
+				}
+				for _, r := range gwords {
+					for _, q := range gwords {
+						if !strings.Contains(r+q, def[:1]) {
+							continue
+						}
+						k := Case{Aligner: al, R: r, Q: q, Letters: def, M: gm[mi], Open: op}
+						c.Doing(mi, k)
+						c.Eval()
+						report(c, prop, k, evaluate(k))
+						n.Add(1)
+					}
+				}
+			}
+		})
+		c.Set("cases_with_the_gap_letter_in_a_sequence", int(n.Load()))
 	}
 	// four-letter alphabet, short sequences
 	def4 := "-acg"
@@ -924,6 +1004,42 @@ func run(c *enum.Ctx, prop string) {
 			Case{Aligner: al, R: "aca", Q: "ca", Letters: def, M: [][]int{{0, -1, -1}}, Open: -1, Ill: "short-matrix: 1x3"},
 		)
 	}
+	// every matrix shape of 1..5 rows whose row lengths are the row count or one off it, except the
+	// square ones that cover the alphabet (cells: 1 on the diagonal, -1 elsewhere)
+	shapes := 0
+	for rows := 1; rows <= 5; rows++ {
+		rad := make([]int, rows)
+		for i := range rad {
+			rad[i] = 3
+		}
+		enum.Product(rad, func(ix []int) {
+			square := true
+			M := make([][]int, rows)
+			for i, d := range ix {
+				n := rows - 1 + d
+				square = square && n == rows
+				M[i] = make([]int, n)
+				for j := range M[i] {
+					M[i][j] = -1
+					if i == j && i > 0 {
+						M[i][j] = 1
+					}
+				}
+			}
+			if square && rows >= 3 {
+				return
+			}
+			shapes++
+			kind := "ragged-matrix"
+			if square {
+				kind = "short-matrix"
+			}
+			for _, al := range aligners {
+				ills = append(ills, Case{Aligner: al, R: "aca", Q: "ca", Letters: def, M: M, Open: -1, Ill: fmt.Sprintf("%s: row lengths %v", kind, ix)})
+			}
+		})
+	}
+	c.Set("ill_matrix_shapes", shapes)
 	for _, k := range ills {
 		c.Doing(0, k)
 		c.Eval()
